@@ -1698,6 +1698,8 @@ class scope(slots_getstate_setstate):
         for object in self.objects:
             if object.primary_id is not None and object.primary_id >= stop_id:
                 break
+            if object.is_disabled:
+                continue
             if object.is_definition:
                 if object.name == path:
                     candidates.append(object)
